@@ -615,7 +615,7 @@ def run_property(mod, argv=None):
         if tier == 'quick' and not args.budget:
             # the per-part budget is a cap, not a target: quick parts normally close in 1-40 s on 16 idle cores; a loaded
             # or slower machine must not turn a closing exploration into an INCONCLUSIVE
-            budget = max(budget, 300)
+            budget = max(budget, 600)
         if part.kind == 'crosshair':
             from harness import xh
             rep = xh.run_part(pid, part, tier, budget)
